@@ -214,6 +214,16 @@ TypeOf(x, C, P) ==
                       IF Ok(s) /\ s[1] \in {"list", "gen"}
                          /\ FiltOk(x, BindV(C, x.x, s[2], FALSE), P)
                          /\ Ok(TypeOf(x.body, BindV([C EXCEPT !.loop = TRUE], x.x, s[2], FALSE), P)) THEN UNIT ELSE ERR
+    \* for x1 in s1 for x2 in s2 .. | c repeat body: every iterator is a segment (SI) or a list; all names are visible in c and body
+    [] e = "pfor" ->
+         LET ets == [j \in 1..Len(x.its) |->
+                       IF x.its[j].k = "range"
+                       THEN (IF Fits(TypeOf(x.its[j].lo, C, P), SI) /\ Fits(TypeOf(x.its[j].hi, C, P), SI) THEN SI ELSE ERR)
+                       ELSE LET s == TypeOf(x.its[j].src, C, P) IN IF Ok(s) /\ s[1] = "list" THEN s[2] ELSE ERR]
+             C1 == [C EXCEPT !.G = [n \in {x.its[j].x : j \in 1..Len(x.its)} |->
+                                      [t |-> ets[CHOOSE j \in 1..Len(x.its) : x.its[j].x = n], asg |-> FALSE]] @@ C.G]
+         IN IF (\A j \in 1..Len(x.its) : Ok(ets[j])) /\ FiltOk(x, C1, P) /\ Ok(TypeOf(x.body, [C1 EXCEPT !.loop = TRUE], P))
+            THEN UNIT ELSE ERR
     [] e \in {"break", "iterate"} -> IF C.loop THEN ANY ELSE ERR
     [] e = "ret" -> IF Ok(C.ret) /\ Fits(TypeOf(x.v, C, P), C.ret) THEN ANY ELSE ERR
     [] e = "error" -> ANY
